@@ -282,3 +282,15 @@ Lemma fixed_task_life t : no_uaf [] (submit_events t ++ thread_events exec_range
 Proof.
   reflexivity.
 Qed.
+
+(* nested execution: never freed while on the stack (checked on the shapes of nested_shapes) *)
+Lemma nested_fixed_ok : nested_ok exec_range_fixed = true.
+Proof. vm_compute. reflexivity. Qed.
+(* slot written before the user function: the nested task's reset frees the still-running outer task *)
+Lemma nested_defer_first_refuted : stack_safe [] [] (outer_run exec_range_defer_first 1 [2] None) = false.
+Proof. vm_compute. reflexivity. Qed.
+(* ... although without nesting that order is indistinguishable *)
+Lemma defer_first_flat_ok : no_uaf [] (submit_events 1 ++ thread_events exec_range_defer_first true None [1; 2; 3]) = true.
+Proof. vm_compute. reflexivity. Qed.
+Lemma nested_old_refuted : stack_safe [] [] (outer_run exec_range_old 1 [] None) = false.
+Proof. vm_compute. reflexivity. Qed.
